@@ -81,12 +81,13 @@ What is proved (all for unbounded inputs):
   the uniqueness of values, which the executable specification checks in `chainInClaim`)
   (Lemmas/TypesAssignDefs.lean, TypesAssign.lean);
 * full agreement: `AgreesWithFull` (= `AgreesWith` + enum table + bit table + fraction-digits) and
-  `resolve_verdict_inside_claim_full`: inside the claim an error-free resolution agrees with
+  `resolve_verdict_inside_claim_full` (+ `resolve_complete_exec_full`): inside the claim an error-free resolution agrees with
   `inherit k ls` in every attribute, nearest definition winning along the chain — for chains whose
   integer arguments (`value`, `position`, `fraction-digits`) are canonically written (`CanonArgs` /
   `CanonInt`: optional `-`, decimal digits, no superfluous leading zero; Lemmas/TypesStrBridge.lean ties
   core Lean's `String.toNat!` / `toNat?` / `toUTF8` to the literals of C14 / C15, Lemmas/TypesAssignFold.lean
-  and TypesAgreeFull.lean do the rest).  The hypothesis cannot be dropped:
+  and TypesAgreeFull.lean do the rest); `canonArgs_of_canonReg`: it suffices that every such argument of the
+  loaded set is canonically written (`CanonReg`).  The hypothesis cannot be dropped:
   `Ex.noncanonical_value_disagrees` (`value 010` is 8 for the model and for Go — `ParseInt` with base 0 —
   and 10 for `parseIntLit`; replayed on the Go code);
 * `linkOk` / `PartOfSchema` against the Bool checks of the executable specification, for registries
@@ -111,10 +112,10 @@ claim (`¬ InsideClaim`: one of the six features is met below it, exactly the `n
 executable specification claims nothing — the relational theorems (`resolve_errors_iff` …) still
 apply wherever `UnambiguousBelow` holds; `AgreesWithFull` is proved for canonically written integer
 arguments only (outside that form the two readings genuinely differ, see above) and does not compare
-union members (`resolve_members` / `spec_exec_members` speak about them separately); a non-vacuity
-example of `resolve_verdict_inside_claim_full` with explicit `value` / `fraction-digits` arguments is not
-given as one kernel evaluation, because the kernel cannot evaluate `String.toNat!` inside `chainOf`
-(the pieces are shown: `Ex.canon_tyN` for members without values, `CanonInt "3"`, `parseIntLit "010"`);
+union members (`resolve_members` / `spec_exec_members` speak about them separately); the kernel cannot evaluate `String.toNat!`, so the
+non-vacuity examples with explicit `value` / `fraction-digits` arguments (`Ex.inside_tyR`, `Ex.inside_tyF`) go
+through `insideClaim_builtin` and the evaluation lemmas of Lemmas/TypesStrBridge.lean instead of one kernel
+evaluation of `chainOf`;
 a reference in a submodule nobody includes is outside the claim (`PartOfSchema`), as in the executable
 specification.
 Helper lemmas: Goyang/Lemmas/Types*.lean.
@@ -1310,6 +1311,36 @@ theorem resolve_verdict_inside_claim_full (reg : Registry) (hok : linkOk reg = t
     have hc' := hcanon k _ hder'
     exact ⟨hag y hy0, enum_agree k hfor hc' hen hE, bit_agree k hfor hc' hbi hB, fd_agree k hfor hc' hfd hF⟩
 
+open Goyang.Lemmas.TypesAgreeFull in
+/-- **Completeness against the executable specification, all attributes** (`resolve_complete_exec`
+extended): what the specification accepts is resolved without error to a type that agrees with
+`inherit k ls` also in enum table, bit table and fraction-digits. -/
+theorem resolve_complete_exec_full (reg : Registry) (hok : linkOk reg = true) (hwf : WfReg reg)
+    (root : Mod) (scope : List Stmt) (t : Stmt) (a : Attrs) (hin : InPlace reg (root, scope, t))
+    (hsch : PartOfSchema reg root) (hkw : t.kw = "type") (hcl : InsideClaim reg (root, scope, t))
+    (hcanon : ∀ kind chain, DerivesFrom reg root scope t kind chain → CanonArgs chain)
+    (hadm : Admissible (Env.of reg) root scope t a) :
+    ∃ k ls y, chainOf reg (specFuel reg) root scope t [] = .ok k ls ∧
+      resolveType reg root scope t = (some y, []) ∧ attrsOf y = a ∧ AgreesWithFull y (inherit k ls) := by
+  obtain ⟨k, ls, y, hc, hy, ha, _⟩ := resolve_complete_exec reg hok hwf root scope t a hin hsch hkw hcl hadm
+  rcases resolve_verdict_inside_claim_full reg hok hwf root scope t hin hsch hkw hcl hcanon with
+    ⟨he, _, _⟩ | ⟨k', ls', hc', _, _, hag⟩
+  · rw [hc] at he; cases he
+  · rw [hc] at hc'
+    cases hc'
+    exact ⟨k, ls, y, hc, hy, ha, hag y hy⟩
+
+/-- **A registry-level sufficient condition** for the hypothesis of `resolve_verdict_inside_claim_full`:
+when every `value` / `position` / `fraction-digits` argument of the loaded set is canonically written
+(`CanonReg`), every derivation chain of a reference that stands in the set has canonical arguments (the
+statements of a chain stand in the loaded set). -/
+theorem canonArgs_of_canonReg (reg : Registry) (hc : Goyang.Lemmas.TypesAgreeFull.CanonReg reg)
+    (root : Mod) (scope : List Stmt) (t : Stmt) (hin : InPlace reg (root, scope, t)) :
+    ∀ kind chain, DerivesFrom reg root scope t kind chain → Goyang.Lemmas.TypesAgreeFull.CanonArgs chain := by
+  intro kind chain h
+  obtain ⟨hroot, ht, hscope⟩ := inSet_of_inPlace (env := Env.of reg) hin
+  exact Goyang.Lemmas.TypesAgreeFull.canonArgs_of_canonReg hc hroot ht hscope h
+
 /-! ## The range / length side condition tied to property C10's specification
 
 `Inherits` / `AgreesWith` do not speak about `range` and `length`: their meaning is the subject of
@@ -1828,6 +1859,165 @@ example : wellLinked regN = true :=
     rw [List.mem_singleton] at hm'
     subst hm'
     exact mN_sch)
+
+/-! ### `resolve_verdict_inside_claim_full` with an explicit value: `enum a; enum b { value 5; } enum c;`
+
+The kernel cannot evaluate `chainOf` here (`parseIntLit "5"` runs `String.toNat!`), so `InsideClaim` is
+shown through `insideClaim_builtin` and the evaluation lemmas of Lemmas/TypesStrBridge.lean. -/
+def eRa : Stmt := S "r.yang" "enum" "a" 2 30 []
+def eRb : Stmt := S "r.yang" "enum" "b" 2 40 [S "r.yang" "value" "5" 2 50 []]
+def eRc : Stmt := S "r.yang" "enum" "c" 2 60 []
+theorem enums_tyR : tyR.all "enum" = [eRa, eRb, eRc] := rfl
+
+open Goyang.Lemmas.TypesAssign Goyang.Lemmas.TypesStrBridge in
+/-- The executable specification assigns 0, 5, 6. -/
+theorem assign_tyR : assignValues "value" (-2147483648) 2147483647 (tyR.all "enum") = some [("a", 0), ("b", 5), ("c", 6)] := by
+  have h3 : parseIntLit "5" = some 5 := by
+    rw [parseIntLit_digits "5" ['5'] (by simp) (by simp) (by simp) (by simp)]; rfl
+  have hr : readMembers "value" (tyR.all "enum") = some [("a", none), ("b", some 5), ("c", none)] := by
+    rw [enums_tyR]
+    unfold readMembers
+    have ha : eRa.argOf? "value" = none := rfl
+    have hb : eRb.argOf? "value" = some "5" := rfl
+    have hc : eRc.argOf? "value" = none := rfl
+    simp [ha, hb, hc, h3]
+    exact ⟨rfl, rfl, rfl⟩
+  rw [assignValues_eq, hr]
+  rfl
+
+theorem seqId_regR : SeqId envR.reg := by
+  intro a ha b hb _
+  have ha' : a ∈ [mR] := ha
+  have hb' : b ∈ [mR] := hb
+  rw [List.mem_singleton] at ha' hb'
+  rw [ha', hb']
+theorem mR_mem : mR ∈ envR.reg.mods := List.mem_singleton.mpr rfl
+theorem mR_sch : PartOfSchema envR.reg mR :=
+  ⟨mR, (show Identity.moduleEntries envR.reg = [mR] from rfl) ▸ List.mem_singleton.mpr rfl, IncludesStar.refl _⟩
+theorem inPlace_tyR : InPlace envR.reg (mR, [leafR, r], tyR) :=
+  ⟨mR_mem, List.Mem.head _, List.Mem.tail _ (List.Mem.head _), rfl⟩
+theorem inside_tyR : InsideClaim envR.reg (mR, [leafR, r], tyR) :=
+  Goyang.Lemmas.TypesAgreeFull.insideClaim_builtin (t := tyR) (by decide) rfl ⟨_, rfl⟩
+    (fun _ => by rw [assign_tyR]; intro h; cases h)
+    (fun h => absurd (show tyR.all "bit" = [] from rfl) h)
+    (fun a ha => by
+      have h0 : tyR.argOf? "fraction-digits" = none := rfl
+      rw [h0] at ha
+      cases ha)
+/-- The only integer argument on the chain is `5`: canonical. -/
+theorem canon_tyR : ∀ kind chain, DerivesFrom envR.reg mR [leafR, r] tyR kind chain →
+    Goyang.Lemmas.TypesAgreeFull.CanonArgs chain := by
+  intro kind chain h
+  have hch := Goyang.Lemmas.TypesAgreeFull.derives_builtin (t := tyR) (by decide) h
+  subst hch
+  refine ⟨?_, ?_, ?_⟩
+  · intro es hes e he a ha
+    have h0 : chainEnums [Link.ty mR [leafR, r] tyR] = some [eRa, eRb, eRc] := rfl
+    rw [h0] at hes
+    cases hes
+    simp only [List.mem_cons, List.not_mem_nil, or_false] at he
+    rcases he with rfl | rfl | rfl
+    · exact absurd ha (by show (none : Option String) ≠ some a; intro h'; cases h')
+    · have hb : eRb.argOf? "value" = some "5" := rfl
+      rw [hb] at ha
+      cases ha
+      exact ⟨false, ['5'], by simp, by simp, by simp, Or.inr (by simp)⟩
+    · exact absurd ha (by show (none : Option String) ≠ some a; intro h'; cases h')
+  · intro bs hbs
+    have h0 : chainBits [Link.ty mR [leafR, r] tyR] = none := rfl
+    rw [h0] at hbs
+    cases hbs
+  · intro f hf
+    have h0 : chainFractionDigits [Link.ty mR [leafR, r] tyR] = none := rfl
+    rw [h0] at hf
+    cases hf
+
+/-- The model's table (last member first) … -/
+example : (resolveType envR.reg mR [leafR, r] tyR).2 = [] ∧
+    ((resolveType envR.reg mR [leafR, r] tyR).1.bind (·.enum)).map (·.toInt) = some [([99], 6), ([98], 5), ([97], 0)] := by
+  decide +kernel
+/-- … agrees with the executable specification: the second case of `resolve_verdict_inside_claim_full`. -/
+example : ∃ k ls, chainOf envR.reg (specFuel envR.reg) mR [leafR, r] tyR [] = .ok k ls ∧
+    ∀ y, resolveType envR.reg mR [leafR, r] tyR = (some y, []) → AgreesWithFull y (inherit k ls) := by
+  rcases resolve_verdict_inside_claim_full envR.reg (by decide +kernel) (by decide +kernel) mR [leafR, r] tyR
+    inPlace_tyR mR_sch rfl inside_tyR canon_tyR with ⟨_, hno, _⟩ | ⟨k, ls, hc, _, _, hag⟩
+  · exact absurd (Resolvable.builtin (by decide)
+      (by intro ut hut; exact absurd hut (by rw [show tyR.all "type" = [] from rfl]; exact List.not_mem_nil))) hno
+  · exact ⟨k, ls, hc, hag⟩
+
+/-- `CanonReg` holds of the explicit-value example (its only integer argument is `5`), so
+`canonArgs_of_canonReg` gives `canon_tyR` again. -/
+theorem canonReg_envR : Goyang.Lemmas.TypesAgreeFull.CanonReg envR.reg := by
+  intro m hm s hs
+  have hm' : m ∈ [mR] := hm
+  rw [List.mem_singleton] at hm'
+  subst hm'
+  have hs' : s ∈ [r, S "r.yang" "prefix" "pr" 1 10 [], leafR, tyR, eRa, eRb, S "r.yang" "value" "5" 2 50 [], eRc] := hs
+  simp only [List.mem_cons, List.not_mem_nil, or_false] at hs'
+  have hno : ∀ (x : Stmt) (k : String), x.argOf? k = none → ∀ a, x.argOf? k = some a →
+      Goyang.Lemmas.TypesStrBridge.CanonInt a := by
+    intro x k h0 a ha; rw [h0] at ha; cases ha
+  rcases hs' with rfl | rfl | rfl | rfl | rfl | rfl | rfl | rfl
+  · exact ⟨hno _ _ rfl, hno _ _ rfl, hno _ _ rfl⟩
+  · exact ⟨hno _ _ rfl, hno _ _ rfl, hno _ _ rfl⟩
+  · exact ⟨hno _ _ rfl, hno _ _ rfl, hno _ _ rfl⟩
+  · exact ⟨hno _ _ rfl, hno _ _ rfl, hno _ _ rfl⟩
+  · exact ⟨hno _ _ rfl, hno _ _ rfl, hno _ _ rfl⟩
+  · refine ⟨?_, hno _ _ rfl, hno _ _ rfl⟩
+    intro a ha
+    have hb : eRb.argOf? "value" = some "5" := rfl
+    rw [hb] at ha
+    cases ha
+    exact ⟨false, ['5'], by simp, by simp, by simp, Or.inr (by simp)⟩
+  · exact ⟨hno _ _ rfl, hno _ _ rfl, hno _ _ rfl⟩
+  · exact ⟨hno _ _ rfl, hno _ _ rfl, hno _ _ rfl⟩
+example : ∀ kind chain, DerivesFrom envR.reg mR [leafR, r] tyR kind chain → Goyang.Lemmas.TypesAgreeFull.CanonArgs chain :=
+  canonArgs_of_canonReg envR.reg canonReg_envR mR [leafR, r] tyR inPlace_tyR
+
+/-! ### … and with fraction-digits: `type decimal64 { fraction-digits 3; }` -/
+def fdF : Stmt := S "f.yang" "fraction-digits" "3" 2 30 []
+theorem mF_mem : mF ∈ envF.reg.mods := List.mem_singleton.mpr rfl
+theorem mF_sch : PartOfSchema envF.reg mF :=
+  ⟨mF, (show Identity.moduleEntries envF.reg = [mF] from rfl) ▸ List.mem_singleton.mpr rfl, IncludesStar.refl _⟩
+theorem inPlace_tyF : InPlace envF.reg (mF, [leafF, fM], tyF) :=
+  ⟨mF_mem, List.Mem.head _, List.Mem.tail _ (List.Mem.head _), rfl⟩
+open Goyang.Lemmas.TypesStrBridge in
+theorem inside_tyF : InsideClaim envF.reg (mF, [leafF, fM], tyF) :=
+  Goyang.Lemmas.TypesAgreeFull.insideClaim_builtin (t := tyF) (by decide) rfl ⟨_, rfl⟩
+    (fun h => absurd (show tyF.all "enum" = [] from rfl) h)
+    (fun h => absurd (show tyF.all "bit" = [] from rfl) h)
+    (fun a ha => by
+      have h0 : tyF.argOf? "fraction-digits" = some "3" := rfl
+      rw [h0] at ha
+      cases ha
+      exact ⟨3, by rw [toNat?_digits "3" ['3'] (by simp) (by simp) (by simp)]; rfl, by omega, by omega⟩)
+theorem canon_tyF : ∀ kind chain, DerivesFrom envF.reg mF [leafF, fM] tyF kind chain →
+    Goyang.Lemmas.TypesAgreeFull.CanonArgs chain := by
+  intro kind chain h
+  have hch := Goyang.Lemmas.TypesAgreeFull.derives_builtin (t := tyF) (by decide) h
+  subst hch
+  refine ⟨?_, ?_, ?_⟩
+  · intro es hes
+    have h0 : chainEnums [Link.ty mF [leafF, fM] tyF] = none := rfl
+    rw [h0] at hes
+    cases hes
+  · intro bs hbs
+    have h0 : chainBits [Link.ty mF [leafF, fM] tyF] = none := rfl
+    rw [h0] at hbs
+    cases hbs
+  · intro f hf
+    have h0 : chainFractionDigits [Link.ty mF [leafF, fM] tyF] = some fdF := rfl
+    rw [h0] at hf
+    cases hf
+    exact ⟨false, ['3'], by show ("3" : String).toList = _; simp, by simp, by simp, Or.inr (by simp)⟩
+/-- The resolved type has 3 fraction digits, and so has the type the executable specification computes. -/
+example : ∃ k ls, chainOf envF.reg (specFuel envF.reg) mF [leafF, fM] tyF [] = .ok k ls ∧
+    ∀ y, resolveType envF.reg mF [leafF, fM] tyF = (some y, []) → AgreesWithFull y (inherit k ls) := by
+  rcases resolve_verdict_inside_claim_full envF.reg (by decide +kernel) (by decide +kernel) mF [leafF, fM] tyF
+    inPlace_tyF mF_sch rfl inside_tyF canon_tyF with ⟨_, hno, _⟩ | ⟨k, ls, hc, _, _, hag⟩
+  · exact absurd (Resolvable.builtin (by decide)
+      (by intro ut hut; exact absurd hut (by rw [show tyF.all "type" = [] from rfl]; exact List.not_mem_nil))) hno
+  · exact ⟨k, ls, hc, hag⟩
 
 /-! ### Outside the canonical form the two readings differ: `enum a { value 010; }`
 
